@@ -95,6 +95,15 @@ pub fn drain(rec: &mut Rec, run: u64, s: &mut Sess, replies: &mut dyn FnMut() ->
 }
 
 pub fn reply_pool(rng: &mut StdRng) -> String {
+    // now and then a reply longer than any line buffer of old (255 / 256 characters)
+    if rng.gen_bool(0.04) {
+        return match rng.gen_range(0..4) {
+            0 => "Z".repeat(300),
+            1 => format!("{}7", " ".repeat(280)),
+            2 => format!("\"{}\", 8", "y".repeat(270)),
+            _ => format!("{}:9", "4".repeat(260)),
+        };
+    }
     let xs = ["5", " 7 ", "abc", "", "\"q\"", "1,2", "1:2", "x,y", "007", "2.5", "-3", "0"];
     xs[rng.gen_range(0..xs.len())].to_string()
 }
@@ -613,7 +622,8 @@ pub fn record_inputassign(seed: u64, n: usize, out: &str, rep: &mut Report) {
             continue;
         }
         let mut rng = StdRng::seed_from_u64(seed ^ (i << 17) ^ 0xC08);
-        let replies: Vec<String> = (0..60).map(|_| "5".to_string()).collect();
+        // the value is always 5; every seventh reply spells it after 280 blanks (longer than any old line buffer)
+        let replies: Vec<String> = (0..60).map(|k| if k % 7 == 3 { format!("{}5", " ".repeat(280)) } else { "5".to_string() }).collect();
         let cfg = RunCfg { lines: &lines, replies: &replies, trace: false, warn: false, break_p: 0.0, inspections: &[], budget: 1500, seed: Some(3) };
         let (ta, la) = run_scheduled(&mut rec, 2 * i, &cfg, &mut rng, json!({"driver": "inputassign", "role": "input", "program": lines}));
         // replace every "INPUT <target>" by "<target> = 5"
